@@ -10,11 +10,11 @@ package main
 
 import (
 	"bytes"
+	"encoding/hex"
+	"fmt"
 	_ "image/gif" // AddPicture needs the caller to register the decoders
 	_ "image/jpeg"
 	_ "image/png"
-	"encoding/hex"
-	"fmt"
 	"os"
 	"path/filepath"
 	"strconv"
@@ -230,6 +230,20 @@ func c05Exec(h *c05Hist, line string) (res string) {
 			return "skip"
 		}
 		nf, err := xl.OpenReader(bytes.NewReader(h.last))
+		if err != nil {
+			return "ERR"
+		}
+		h.c05Close()
+		h.f = nf
+		h.styles, h.dxfs, h.streamed = nil, nil, nil
+		return "ok"
+	case "reopenspill":
+		// reopen the last saved bytes with a tiny UnzipXMLSizeLimit: worksheets and shared strings
+		// larger than it are spilled to temp files instead of being kept in memory
+		if h.last == nil {
+			return "skip"
+		}
+		nf, err := xl.OpenReader(bytes.NewReader(h.last), xl.Options{UnzipXMLSizeLimit: 512, UnzipSizeLimit: 1 << 30})
 		if err != nil {
 			return "ERR"
 		}
@@ -532,10 +546,10 @@ func c05Exec(h *c05Hist, line string) (res string) {
 		// data block header (row 1, columns A..D) + rows must exist: h.pivotdata
 		return E(f.AddPivotTable(&xl.PivotTableOptions{
 			DataRange: S(0), PivotTableRange: S(1), Name: S(2),
-			Rows:    []xl.PivotTableField{{Data: "Month", DefaultSubtotal: true}, {Data: "Year"}},
-			Filter:  []xl.PivotTableField{{Data: "Region"}},
-			Columns: []xl.PivotTableField{{Data: "Type", DefaultSubtotal: true}},
-			Data:    []xl.PivotTableField{{Data: "Sales", Name: "Sum <&>", Subtotal: "Sum", NumFmt: 38}},
+			Rows:           []xl.PivotTableField{{Data: "Month", DefaultSubtotal: true}, {Data: "Year"}},
+			Filter:         []xl.PivotTableField{{Data: "Region"}},
+			Columns:        []xl.PivotTableField{{Data: "Type", DefaultSubtotal: true}},
+			Data:           []xl.PivotTableField{{Data: "Sales", Name: "Sum <&>", Subtotal: "Sum", NumFmt: 38}},
 			RowGrandTotals: true, ColGrandTotals: true, ShowDrill: true, ShowRowHeaders: true, ShowColHeaders: true, ShowLastColumn: true,
 			ClassicLayout: I(3)%2 == 0, CompactData: I(3)%3 == 0}))
 	case "pivotdata":
@@ -730,11 +744,11 @@ func c05Chart(sheet string, v int) *xl.Chart {
 		{Name: q + "$A$3", Categories: q + "$B$1:$D$1", Values: q + "$B$3:$D$3", Sizes: q + "$B$3:$D$3", Marker: xl.ChartMarker{Symbol: "circle", Size: 6}},
 	}
 	return &xl.Chart{Type: t, Series: ser, Format: *c05Graphic(v),
-		Title:    []xl.RichTextRun{{Text: "Chart <&> \"" + strconv.Itoa(v) + "\""}},
-		Legend:   xl.ChartLegend{Position: "left", ShowLegendKey: v%2 == 0},
-		PlotArea: xl.ChartPlotArea{ShowCatName: v%3 == 0, ShowVal: true, ShowPercent: v%4 == 0},
-		XAxis:    xl.ChartAxis{MajorGridLines: true, Title: []xl.RichTextRun{{Text: "x<&>"}}},
-		YAxis:    xl.ChartAxis{MinorGridLines: v%2 == 1, NumFmt: xl.ChartNumFmt{CustomNumFmt: "0.0 \"<u>\""}},
+		Title:        []xl.RichTextRun{{Text: "Chart <&> \"" + strconv.Itoa(v) + "\""}},
+		Legend:       xl.ChartLegend{Position: "left", ShowLegendKey: v%2 == 0},
+		PlotArea:     xl.ChartPlotArea{ShowCatName: v%3 == 0, ShowVal: true, ShowPercent: v%4 == 0},
+		XAxis:        xl.ChartAxis{MajorGridLines: true, Title: []xl.RichTextRun{{Text: "x<&>"}}},
+		YAxis:        xl.ChartAxis{MinorGridLines: v%2 == 1, NumFmt: xl.ChartNumFmt{CustomNumFmt: "0.0 \"<u>\""}},
 		ShowBlanksAs: "zero", Dimension: xl.ChartDimension{Width: 300, Height: 200}}
 }
 
